@@ -130,14 +130,23 @@ def established(c):
     return c["cdone"] and c["sdone"] and c["cerr"] == "ok" and c["serr"] == "ok"
 
 
-def timer_groups(c, side):
+def timer_groups(c, side, new_only=False):
     """virtual times of timer-caused emission groups of `side`, with the number of deliveries to
-    `side` seen so far at each"""
+    `side` seen so far at each. With new_only, a delivery only counts if a datagram with that
+    content (record kinds, message sequences, fragment ranges) had not been delivered to `side`
+    before - i.e. deliveries of retransmitted flights do not count."""
     out = []
     ndel = 0
+    content = {}
+    seen = set()
     for e in c["events"]:
+        if e["ev"] == "emit":
+            content[e["idx"]] = tuple((r["ct"], r["e"], r["ht"], r["ms"], r["fo"], r["fl"]) for r in e["recs"])
         if e["ev"] == "deliver" and e["side"] == side:
-            ndel += 1
+            k = content.get(e["idx"])
+            if not new_only or k not in seen:
+                ndel += 1
+            seen.add(k)
         elif e["ev"] == "emit" and e["side"] == side and e["cause"] == "timer":
             if not out or out[-1][0] != e["t"]:
                 out.append((e["t"], ndel))
@@ -171,6 +180,15 @@ def monitor_discipline(c):
                 if g2 != want:
                     return "%s retransmission gaps %d ms then %d ms (expected %d) with no input in between" % (
                         side, g1, g2, want)
+        # only NEW data restores the initial interval: deliveries that merely repeat datagrams the
+        # side has already received must leave the doubling alone
+        gn = timer_groups(c, side, new_only=True)
+        for (t0, d0), (t1, d1), (t2, d2) in zip(gn, gn[1:], gn[2:]):
+            if d0 == d1 == d2 and t0 > 0 and not c["no_backoff"]:
+                g1, g2 = t1 - t0, t2 - t1
+                if g2 < g1 and g1 <= 60000:
+                    return "%s retransmission interval fell from %d ms to %d ms although only retransmitted data arrived in between" % (
+                        side, g1, g2)
                 if g2 > 60000:
                     return "%s retransmission interval %d ms above the 60 s cap" % (side, g2)
         nem = sum(1 for e in c["events"] if e["ev"] == "emit" and e["side"] == side)
